@@ -61,7 +61,7 @@ class Replayer:
             if got != want:
                 raise Mismatch("%s.block.%s" % (where, c), "block %s: %s = %d, model %d" % (exp["nfile"], c, got, want))
 
-    def observe(self, p, obs):
+    def observe(self, p, obs, getters_only=False):
         L = self.L
         for m, g, isbig in GETTERS:
             got = getattr(L, "lzma_index_" + g)(p); want = big(obs[m]) if isbig else obs[m]
@@ -73,6 +73,8 @@ class Replayer:
         got = L.lzma_index_memused(p)
         if got != obs["mem"]:
             raise Mismatch("memused", "lzma_index_memused = %d, model %d" % (got, obs["mem"]))
+        if obs.get("lite") or getters_only:
+            return
         st = obs["st"]; bl = {b["nfile"]: b for b in obs["bl"]}
         it = self.lz.IndexIter()
         for mode, name in enumerate(MODES):
@@ -215,6 +217,11 @@ class Replayer:
                                 r = L.lzma_index_append(reg[k], A, 8, (o["n"] >> g) & 1)
                                 if r != 0:
                                     ret = lz.retname(r); break
+                    elif op == "encn":
+                        for _ in range(o["n"]):
+                            assert L.lzma_index_append(reg[k], A, big(o["u"]), big(o["v"])) == 0
+                        data = self.encode_checked(reg[k], bytes(s["enc"]))
+                        self.chunked_decodes(data, [ob for slot, ob in s["obs"] if slot == 0][0], alloc)
                     elif op == "park":
                         # iterate-some / append-many / iterate-rest (IndexOps!Apply "park")
                         for _ in range(o["n"]):
@@ -251,7 +258,7 @@ class Replayer:
                             raise Mismatch("ret", "lzma_index_dup returned NULL")
                         reg[j] = x
                     elif op == "encdec":
-                        ret = self.encdec(reg, k, j, s, A)
+                        ret = self.encdec(reg, k, j, s, A, alloc)
                     elif op == "iter_init":
                         L.lzma_index_iter_init(C.byref(it), reg[k]); it_slot = k
                     elif op in ("iter_next", "iter_locate"):
@@ -285,6 +292,8 @@ class Replayer:
                         raise Mismatch("ret", "%s returned %s, model %s (%s)" % (op, ret, s["ret"], s["why"]))
                     touched = set()
                     for slot, ob in s["obs"]:
+                        if slot == 0:
+                            continue          # (prediction for a decoded copy, compared where it was decoded)
                         touched.add(slot); last[slot] = ob
                         if slot not in reg:
                             raise Mismatch("ret", "model has an index in slot %d, the code none" % slot)
@@ -316,7 +325,62 @@ class Replayer:
         sf.backward_size = big(f["bs"]) if f["bsk"] else self.lz.VLI_UNKNOWN
         return sf
 
-    def encdec(self, reg, k, j, s, A=None):
+    def chunked_decodes(self, data, obs, alloc):
+        """The Index decoder as a stream (lzma_index_decoder + lzma_code): whatever the input chunks are, the
+        result is the index the model predicts for the decode (`obs`).  Fed byte by byte, and in two chunks cut
+        after every byte of the encoding (= after the Indicator, the Number of Records, every Record field, every
+        padding and CRC32 byte); for big encodings after each of the first 48 and last 24 bytes."""
+        lz = self.lz; L = self.L; size = len(data)
+        A = alloc.ptr() if alloc else None
+        ib = lz.Buf(size, data)
+        cuts = list(range(1, size)) if size <= 700 else list(range(1, 49)) + list(range(size - 24, size))
+        for cut in [0] + cuts:
+            pieces = [1] * size if cut == 0 else [cut, size - cut]
+            what = "byte by byte" if cut == 0 else "in chunks of %d + %d bytes" % (cut, size - cut)
+            c = lz.Coder(alloc); idx = C.c_void_p()
+            if c.init("lzma_index_decoder", C.byref(idx), lz.UINT64_MAX) != lz.OK:
+                raise Mismatch("decode_chunked", "lzma_index_decoder failed")
+            st = c.strm; pos = 0; ret = lz.OK
+            try:
+                for n in pieces:
+                    st.next_in = ib.addr + pos; st.avail_in = n; st.next_out = None; st.avail_out = 0
+                    ret = c.code_raw(lz.RUN)
+                    used = n - st.avail_in; pos += used
+                    if ret == lz.OK and used == n and pos < size:
+                        continue
+                    break
+                if ret != lz.STREAM_END or pos != size or not idx.value:
+                    raise Mismatch("decode_chunked", "%d-byte Index fed %s: %s after %d bytes, index %s" % (
+                        size, what, lz.retname(ret), pos, "present" if idx.value else "missing"))
+                try:
+                    self.observe(idx.value, obs, getters_only=True)
+                except Mismatch as e:
+                    raise Mismatch("decode_chunked." + e.field, "%d-byte Index fed %s: %s" % (size, what, e.detail))
+                ob = lz.Buf(size); op = C.c_size_t(0)
+                if L.lzma_index_buffer_encode(idx.value, ob.addr, C.byref(op), size) != lz.OK or ob.data(size) != data:
+                    raise Mismatch("decode_chunked.bytes", "%d-byte Index fed %s: re-encoding differs" % (size, what))
+            finally:
+                c.end()
+                if idx.value:
+                    L.lzma_index_end(idx, A)
+
+    def encode_checked(self, p, want):
+        lz = self.lz; L = self.L
+        size = L.lzma_index_size(p)
+        if size != len(want) + 4:
+            raise Mismatch("encode_size", "lzma_index_size %d, model %d" % (size, len(want) + 4))
+        buf = lz.Buf(size); pos = C.c_size_t(0)
+        r = L.lzma_index_buffer_encode(p, buf.addr, C.byref(pos), size)
+        if r != lz.OK or pos.value != size or not buf.guards_ok():
+            raise Mismatch("encode", "encode returned %s pos %d" % (lz.retname(r), pos.value))
+        data = buf.data(size)
+        if data[:-4] != want:
+            raise Mismatch("encode_bytes", "encoded Index differs from the model's bytes")
+        if int.from_bytes(data[-4:], "little") != zlib.crc32(data[:-4]):
+            raise Mismatch("encode_crc", "CRC32 of the encoded Index is wrong")
+        return data
+
+    def encdec(self, reg, k, j, s, A=None, alloc=None):
         lz = self.lz; L = self.L
         size = L.lzma_index_size(reg[k])
         want = bytes(s["enc"])
@@ -343,6 +407,9 @@ class Replayer:
                 L.lzma_index_end(out, A)
                 raise Mismatch("decode", "decoder consumed %d of %d bytes" % (ip.value, size))
             reg[j] = out.value
+            dec = [ob for slot, ob in s["obs"] if slot == j]
+            if dec and size <= 700:
+                self.chunked_decodes(data, dec[0], alloc)
         return lz.retname(r)
 
 
